@@ -271,15 +271,18 @@ def selected_fields(
             fieldnames.append(joined)
 
         if (not maxdepth) or len(_path) < (maxdepth - 1):
-            fieldnames.extend(
-                selected_fields(
-                    child_field,
+            # Fields sharing a response key are merged at execution time, so
+            # the sub selections of every one of them are selected.
+            for merged_field in fields:
+                for child in selected_fields(
+                    merged_field,
                     fragments=fragments,
                     variables=variables,
                     maxdepth=maxdepth,
                     pattern=pattern,
                     _path=child_path,
-                )
-            )
+                ):
+                    if child not in fieldnames:
+                        fieldnames.append(child)
 
     return fieldnames
